@@ -187,6 +187,8 @@ def extra_of(ev, extra):
         out["factor"] = {k: v for k, v in f.items() if k != "cols"}
         # F-12a signature: clip(x, 0, max(x)) with max(x) < 0 returns the constant max(x)
         out["constant_negative_factor"] = bool(f["const"] and f["cols"] and f["cols"][0]["minsign"] < 0)
+        # F-11c signature: the factor holds entries beyond the quantiser's range (|x| >= 200)
+        out["huge_factor"] = bool(abs(f["maxabs"]) >= SAT)
     return out
 
 
